@@ -192,7 +192,11 @@ class time_zone {
   template <typename D>
   bool prev_transition(const time_point<D>& tp,
                        civil_transition* trans) const {
-    return prev_transition(detail::split_seconds(tp).first, trans);
+    // A transition at T is "previous" to any tp > T, so a tp with a
+    // fractional second is rounded up (not down) to whole seconds.
+    const auto ss = detail::split_seconds(tp);
+    return prev_transition(
+        ss.second.count() == 0 ? ss.first : ss.first + seconds(1), trans);
   }
 
   // version() and description() provide additional information about the
